@@ -365,6 +365,8 @@ func oddTransparent(g *sqlh.Gen, t *sqlh.TableDesc) sqlh.Filter {
 			return sqlh.Filter{"age": {T: "Shifted", Z: 1<<31 - 1}} // serializes to 2^31: no int32 column stores it
 		}
 		return sqlh.Filter{"age": {T: "Shifted", Z: 1<<31 - 1}, "name": {T: "string", S: g.R.Pick(sqlh.SmallStrings)}}
+	case "tags":
+		return sqlh.Filter{"ab": {T: "int64", Z: int64(g.R.Intn(5))}, "namespace": {T: "string", S: g.R.Pick(sqlh.SmallStrings)}} // (no odd class on this table)
 	}
 	return sqlh.Filter{"seq": {T: "Shifted", Z: 1<<32 - 1}, "tag": {T: "Label", S: g.R.Pick(sqlh.SmallStrings)}}
 }
@@ -389,6 +391,24 @@ func genCase(g *sqlh.Gen) Case {
 			cols = append(cols, g.R.Intn(len(t.Cols)))
 		}
 		shapes = append(shapes, cols)
+	}
+	// column sets whose sorted names concatenate to the same text ({namespace} / {name, space}): only the
+	// separator in the key of a column set keeps their groups apart, in the combined statement and in the matcher
+	if sets := sqlh.CollidingSets[t.Name]; len(sets) > 0 && g.R.Chance(60) {
+		for _, names := range sets[g.R.Intn(len(sets))] {
+			var cols []int
+			for _, nm := range names {
+				for ci := range t.Cols {
+					if t.Cols[ci].Name == nm {
+						cols = append(cols, ci)
+					}
+				}
+			}
+			shapes = append(shapes, cols)
+		}
+		if len(shapes) > 2 {
+			shapes = shapes[len(shapes)-2:] // mostly the colliding pair
+		}
 	}
 	for i := 0; i < n; i++ {
 		f := sqlh.Filter{}
@@ -998,6 +1018,11 @@ func main() {
 			}
 		}
 		run.Hist(fmt.Sprintf("shapes:%d", len(shapes)))
+		for _, pair := range sqlh.CollidingSets[c.Table] {
+			if shapes[strings.Join(pair[0], ";")] && shapes[strings.Join(pair[1], ";")] {
+				run.Hist("shapes:column sets whose names concatenate alike in one case (" + strings.Join(pair[0], "+") + " / " + strings.Join(pair[1], "+") + ")")
+			}
+		}
 		if anyKnown {
 			run.Hist("case:known-matcher-class-observed")
 		}
